@@ -14,11 +14,17 @@ inductive Kind where
   | other         -- anything else
   deriving DecidableEq, Repr
 
-/-- One wrapping layer. Both implement `Unwrap`, so `errors.Is` looks through them. -/
+/-- One wrapping layer. All implement `Unwrap`, so `errors.Is` looks through them. -/
 inductive Wrap where
   | fmt   -- fmt.Errorf("…: %w", err): NOT a net.Error
   | op    -- &net.OpError{Err: err}: a net.Error whose Timeout() asks the DIRECT inner error
+  | url   -- &url.Error{Err: err} (what http.Client / RoundTrip failures arrive as): a net.Error, Timeout() likewise
   deriving DecidableEq, Repr
+
+/-- the layer is itself a `net.Error` (`errors.As(err, &netErr)` stops at it) -/
+def Wrap.isNet : Wrap → Bool
+  | .fmt => false
+  | .op | .url => true
 
 /-- An error value: wrappers outermost first, then the innermost error. -/
 structure Err where
